@@ -67,17 +67,19 @@ class ShardWriterTFRec(ShardWriterBase):
                 f"Unsupported compression {self.dataset_structure.compression}"
                 " requested for TFRecordWriter, expected "
                 f"{ShardWriterTFRec.supported_compressions()}")
-        if not self._tf_shard_writer:
-            self._tf_shard_writer = tf.io.TFRecordWriter(
-                str(self._shard_file),
-                self.dataset_structure.compression,  # type: ignore
-            )
-
+        # Serialize (and thereby validate) first. An example which is refused
+        # must not create the shard file: an empty shard is never listed and
+        # its file would stay behind.
         example = to_tfrecord(
             saved_data_description=self.dataset_structure.
             saved_data_description,
             values=values,
         )
+        if not self._tf_shard_writer:
+            self._tf_shard_writer = tf.io.TFRecordWriter(
+                str(self._shard_file),
+                self.dataset_structure.compression,  # type: ignore
+            )
         self._tf_shard_writer.write(example)
 
     def close(self) -> None:
